@@ -22,6 +22,11 @@ theorem pod_delete_evicts_owner : "pe.cache.deletePod" ∈ callsOf "deletePod" :
 theorem anp_inserted_by_priority : "sort.Search" ∈ callsOf "insertAdminNetworkPolicy" := by decide
 theorem clear_resources_renews_cache : "newEvalCache" ∈ callsOf "ClearResources" := by decide
 
+/-- `SetResources` is nothing but the three insert entry points, namespaces first, then policies, then pods
+(`EState.setResources` folds `EState.insert` in this order; `Netpol.Properties.C15.setResources_is_history`) -/
+theorem set_resources_is_inserts :
+    Gen.setResourcesCalls = ["pe.insertNamespace", "pe.insertNetworkPolicy", "pe.insertPod"] := by decide
+
 /-- the model does what the table says: the state after an accepted insert/delete of these kinds has an empty cache
 (`Netpol.Properties.C15.update_never_leaks` is the general statement) -/
 example (s : EState) (n : NsObj) : (s.insert (.ns n)).2.cache.items = [] := by
